@@ -16,7 +16,10 @@ struct Cfg {
     bool c05 = true, c06 = true, c15 = true;
 };
 
-typedef double W;
+#ifndef VH_WTYPE
+#define VH_WTYPE double
+#endif
+typedef VH_WTYPE W;     // -DVH_WTYPE=long: the same harness over an integral weight type
 typedef vb::Built<W> B;
 typedef B::Graph Graph;
 typedef B::Edge Edge;
